@@ -10,6 +10,8 @@ coordinates a nearest edge; grid coordinates equal; an axis nothing refers to sp
 
 from __future__ import annotations
 
+import os
+
 from hypothesis import strategies as st
 
 from pbt.engine import Sub
@@ -99,6 +101,8 @@ def body(ctx, case):
 def small_cases(ctx):
     full = ctx.tier == "thorough"
     stride = 1 if full else 97
+    if full and float(os.environ.get("VERIF_SCALE", "1")) < 1:  # development aid of the driver: thinned, not exhaustive
+        stride = max(1, round(1 / float(os.environ["VERIF_SCALE"])))
     for i, sysm in enumerate(P.small_systems(3, 2)):
         if i % stride:
             continue
